@@ -605,3 +605,41 @@ PROPS["C15"] = Prop(
     classify=_cls_spl, mode="close", rtol=1e-7, exhaustive=lambda tier: False, trusted=_spl_trusted, oracle=_oracle_c15,
     assumptions=["non-singularity of the collocation matrix (Schoenberg-Whitney) is a generator precondition",
                  "f64 rounding modelled"])
+
+
+# ---------------------------------------------------------------------------------------------
+# save / load
+
+def _cls_c16(t, impl):
+    op = t[0]
+    if op == "ser":
+        return "ser:%s" % t[1], impl.startswith("B ")
+    if op == "rt":
+        return "rt:%s:%s" % (t[1], impl.split(" ", 1)[0]), True
+    if op == "f64json":
+        return "f64json:" + impl.split(" ", 1)[0], True
+    return None, False
+
+
+def _key_c16(t, il, ml):
+    if t[0] == "rt":
+        return "rt:%s:%s" % (t[1], il)
+    if t[0] == "f64json":
+        return "f64json:" + il.split(" ", 1)[0]
+    return "%s:%s" % (t[0], t[1] if len(t) > 1 else "")
+
+
+PROPS["C16"] = Prop(
+    rule="per round: Dual and Dual2 with 0-4 names and ARBITRARY FINITE doubles (uniform over bit patterns, subnormals, +-0, "
+         "extremes), Cal / UnionCal / NamedCal, an FX tree market (2-5 currencies, with/without settlement, at a random "
+         "order), a curve (5 rules x 3 orders, with/without index base), a spline of each of the 3 types unsolved and solved, "
+         "40 bare doubles. `ser`: bincode bytes of the implementation vs the bytes the Lean codec model predicts (exact). "
+         "`rt`: model-free round trips on the real code - to_json/from_json, the tagged from_json entry point, bincode - "
+         "with == and a query battery; `f64json`: the JSON text layer on a bare double",
+    classify=_cls_c16, mode="exact", finding_key=_key_c16, exhaustive=lambda tier: False,
+    trusted=["Lean model of the bincode 1.3 wire format and of serde's derive layout for Dual, Dual2, Number, PPSpline, "
+             "NamedCal, FXRates, Curve (lean/RateslibModel/Model/Serde.lean), tied to the code by byte-exact comparison",
+             "serde, serde_json, ryu, bincode, chrono's and ndarray's serde impls: implementation trusted; validated by "
+             "the byte comparison and the model-free round trips only"],
+    assumptions=["non-finite floats are outside the property", "Cal/UnionCal bytes depend on hash order: round trip and "
+                 "queries only, no byte comparison", "JSON tree level is not modelled in Lean: model-free round trips only"])
